@@ -164,7 +164,7 @@ def run(ctx):
         "that attempt (cap 150 ms), or answers 8 ms after the cancellation (good response / permanent error); or IGNORES the cancellation and answers 15-25 ms after the deadline while a slow retry (answers "
         "after 40 ms; timeouts 60-70 ms there) is in flight; the model expects the timeout attempt for all three. Response "
         "flavours: PGood = the declared type (a value of Resp; for the plugin that declares *AltResp a pointer or a TYPED-NIL "
-        "pointer of that type), PBad = a non-nil interface of another dynamic type (value, typed-nil pointer, nil map, nil slice)",
+        "pointer of that type), PBad = a non-nil interface of another dynamic type (value, typed-nil pointer, nil map, nil slice, or a HOMONYM: a type of another package that prints the same with %T)",
         "modelled, not verified: Backoff.Retry of github.com/Azure/retry (transcribed), the retry policy has no MaxAttempts, the plan "
         "context is not cancelled during a run. Not covered: the back-off durations; recovered (Running) actions (C09/C10)",
     ])
